@@ -149,6 +149,31 @@ def run(prog, rep, tier):
                     sup_types |= {int(c) for c, _ in br.cases}
         guarded = all(any(g[0] == "call" and g[1].endswith("Message::is_supported_type") and l == {"true"} for g, l, h in flat_guards(dv, bi))
                       for bi, t in dv.calls(re.compile(r"rustybgp_packet::rpki::Message::from_bytes$")))
+        if not sp:
+            # the predicate written in place: `matches!(pdu[1], T0 | T1 | ..)` = a switch on a byte in decode itself whose listed
+            # values lead to the parser
+            fbs = [bi for bi, t in dv.calls(re.compile(r"rustybgp_packet::rpki::Message::from_bytes$"))]
+            from ..paths import enumerate_paths, PathLimit
+            try:
+                dps = enumerate_paths(dv, Renderer(dv, depth=10), max_paths=20000)
+            except PathLimit:
+                dps = []
+            ok_labels, leak = set(), False
+            for conds, blocks, env in dps:
+                if not (set(fbs) & set(blocks)):
+                    continue
+                tl = [labels for br, labels in conds if getattr(br, "ty", None) == "u8" and len(getattr(br, "cases", [])) >= 3]
+                if not tl:
+                    leak = True
+                    continue
+                for labels in tl:
+                    if "else" in labels:
+                        leak = True
+                    else:
+                        ok_labels |= {int(x) for x in labels if str(x).isdigit()}
+            if ok_labels and not leak:
+                sup_types |= ok_labels
+                guarded = True
         if len(parse_types) < 8:
             r2.unanalysable("Message::from_bytes: PDU type switch not recognised (%d types)" % len(parse_types), dv.loc())
         elif guarded and sup_types == parse_types:
